@@ -304,7 +304,8 @@ Proof.
     destruct (span_digits r1) as [fs r2]. destruct fs; [discriminate|].
     destruct r2 as [|e r3]; [discriminate|].
     destruct (negb (beq e 101 || beq e 69)); [discriminate|].
-    destruct (span_digits _) as [es r5]. destruct es, r5; discriminate.
+    match goal with |- context [span_digits ?x] => destruct (span_digits x) as [es r5] end.
+    destruct es, r5; intro; discriminate.
 Qed.
 
 Lemma classify_real u : classify_unsigned u = NumReal ->
@@ -353,8 +354,10 @@ Proof.
     subst Y fs. cbn [app]. rewrite Hf0. reflexivity. }
   rewrite <- !app_assoc. cbn [app]. rewrite <- !app_assoc.
   destruct ds as [|c ds'].
-  - cbn [app]. unfold lex_number. change (is_digit x2e) with false. change (beq x2e 46) with true.
-    rewrite Ef at 1. cbn [app]. rewrite Hf0. rewrite <- Ef.
+  - assert (Start : match fs ++ tail ++ w with d :: _ => if is_digit d then Some true else None | [] => None end = Some true).
+    { rewrite Ef. cbn [app]. rewrite Hf0. reflexivity. }
+    cbn [app]. unfold lex_number. change (is_digit x2e) with false. change (beq x2e 46) with true.
+    cbv iota. rewrite Start.
     destruct (scan_frac_tail fs tail w [x2e] Hw Hne Hfs Ht) as [S L]. rewrite S. cbn [rev app] in *. rewrite L. reflexivity.
   - cbn [forallb] in Hds. apply andb_true_iff in Hds as [Hc Hds].
     cbn [app]. unfold lex_number. rewrite Hc.
@@ -362,4 +365,175 @@ Proof.
     destruct (scan_frac_tail fs tail w (x2e :: rev ds' ++ [c]) Hw Hne Hfs Ht) as [S L]. rewrite S.
     cbn [rev] in *. rewrite rev_app_distr, rev_involutive in *. cbn [rev app] in *. rewrite <- app_assoc in *. cbn [app] in *.
     rewrite L. reflexivity.
+Qed.
+
+(* ------------------------------------------------------------------ *)
+(* strings                                                             *)
+
+Lemma utf8_step_app s w : utf8_step s = (w, true) ->
+  (1 <= w <= length s)%nat /\ forall y, utf8_step (s ++ y) = (w, true).
+Proof.
+  unfold utf8_step. destruct s as [|b r]; [discriminate|].
+  cbn [app]. destruct (b2n b <? 128).
+  { intro H; inversion H; subst. split; [cbn [length]; lia|reflexivity]. }
+  destruct (in_rng b 194 223).
+  { destruct r as [|c1 r1]; [discriminate|]. cbn [app]. destruct (is_cont c1); [|discriminate].
+    intro H; inversion H; subst. split; [cbn [length]; lia|reflexivity]. }
+  destruct (in_rng b 224 239).
+  { destruct r as [|c1 [|c2 r2]]; try discriminate. cbn [app].
+    destruct (in_rng c1 _ _ && is_cont c2); [|discriminate].
+    intro H; inversion H; subst. split; [cbn [length]; lia|reflexivity]. }
+  destruct (in_rng b 240 244); [|discriminate].
+  destruct r as [|c1 [|c2 [|c3 r3]]]; try discriminate. cbn [app].
+  destruct (in_rng c1 _ _ && is_cont c2 && is_cont c3); [|discriminate].
+  intro H; inversion H; subst. split; [cbn [length]; lia|reflexivity].
+Qed.
+
+Lemma firstn_app_le' (a b : bytes) n : (n <= length a)%nat -> firstn n (a ++ b) = firstn n a.
+Proof. intro H. rewrite firstn_app. replace (n - length a)%nat with 0%nat by lia. cbn [firstn]. apply app_nil_r. Qed.
+Lemma skipn_app_le' (a b : bytes) n : (n <= length a)%nat -> skipn n (a ++ b) = skipn n a ++ b.
+Proof. intro H. rewrite skipn_app. replace (n - length a)%nat with 0%nat by lia. reflexivity. Qed.
+
+Definition plain_byte (b : byte) : bool := negb (beq b 92 || beq b 34).
+
+Lemma scan_str_plain k : forall inner fuel acc x,
+  utf8_valid_f k inner = true -> forallb plain_byte inner = true -> (length inner < fuel)%nat ->
+  scan_str fuel (inner ++ x22 :: x) acc = Some (rev acc ++ inner, x).
+Proof.
+  induction k as [|k IH]; intros inner fuel acc x Hv Hp Hf.
+  - destruct inner; [|discriminate]. destruct fuel; [lia|]. cbn [app scan_str].
+    change (beq x22 34) with true. cbv iota. rewrite app_nil_r. reflexivity.
+  - destruct inner as [|c r].
+    { destruct fuel; [lia|]. cbn [app scan_str]. change (beq x22 34) with true. cbv iota. rewrite app_nil_r. reflexivity. }
+    cbn [utf8_valid_f] in Hv. destruct (utf8_step (c :: r)) as [w ok] eqn:E.
+    apply andb_true_iff in Hv as [Hok Hv]. subst ok.
+    destruct (utf8_step_app _ _ E) as (Hw & Happ).
+    destruct fuel as [|f]; [lia|].
+    pose proof Hp as Hp0. cbn [forallb] in Hp0. apply andb_true_iff in Hp0 as [Hc _].
+    unfold plain_byte in Hc. apply negb_true_iff, orb_false_iff in Hc as [C1 C2].
+    change ((c :: r) ++ x22 :: x) with (c :: (r ++ x22 :: x)).
+    cbn [scan_str]. rewrite C2, C1.
+    change (c :: r ++ x22 :: x) with ((c :: r) ++ x22 :: x). rewrite Happ.
+    rewrite skipn_app_le', firstn_app_le' by lia.
+    rewrite IH.
+    + rewrite rev_app_distr, rev_involutive, <- app_assoc, (firstn_skipn w (c :: r)). reflexivity.
+    + exact Hv.
+    + rewrite <- (firstn_skipn w (c :: r)) in Hp. rewrite forallb_app in Hp. apply andb_true_iff in Hp. tauto.
+    + rewrite skipn_length. cbn [length] in *. lia.
+Qed.
+
+Lemma simple_string_spec t inner : simple_string t = Some inner ->
+  t = x22 :: inner ++ [x22] /\ forallb plain_byte inner = true /\ utf8_valid inner = true.
+Proof.
+  unfold simple_string. destruct t as [|q r]; [discriminate|].
+  destruct (beq q 34) eqn:Q; [|discriminate].
+  destruct (rev r) as [|q2 ir] eqn:R; [discriminate|].
+  destruct (beq q2 34) eqn:Q2; [|discriminate].
+  destruct (negb (existsb _ (rev ir)) && utf8_valid (rev ir)) eqn:C; [|discriminate].
+  intro H; inversion H; subst inner. apply andb_true_iff in C as [C1 C2].
+  assert (q = x22) by (apply byte_eqb_eq; exact Q). assert (q2 = x22) by (apply byte_eqb_eq; exact Q2). subst.
+  split.
+  - f_equal. rewrite <- (rev_involutive r), R. reflexivity.
+  - split; [|exact C2]. apply negb_true_iff in C1.
+    apply forallb_forall. intros b Hb. unfold plain_byte.
+    destruct (beq b 92 || beq b 34) eqn:E; [|reflexivity].
+    assert (existsb (fun b => beq b 92 || beq b 34) (rev ir) = true) by (apply existsb_exists; exists b; auto).
+    congruence.
+Qed.
+
+(* ------------------------------------------------------------------ *)
+(* the theorem                                                         *)
+
+Lemma try_core_sound ovf t w l : WS w -> try_core ovf t = Some l -> lex_core (t ++ w) = Some l.
+Proof.
+  intros Hw. unfold try_core.
+  destruct (fold_eq t kw_true) eqn:Ft.
+  { intro H; inversion H; subst l.
+    destruct (fold_eq_letters t kw_true eq_refl Ft) as [Hl Hlen].
+    apply lex_bool_kw; auto; [destruct t; [discriminate|congruence]|rewrite Ft; reflexivity]. }
+  destruct (fold_eq t kw_false) eqn:Ff.
+  { intro H; inversion H; subst l.
+    destruct (fold_eq_letters t kw_false eq_refl Ff) as [Hl Hlen].
+    apply lex_bool_kw; auto; [destruct t; [discriminate|congruence]|rewrite Ft, Ff; reflexivity]. }
+  destruct (strip_minus t) as [neg u] eqn:Sm.
+  assert (Ht : t = (if neg then [x2d] else []) ++ u /\ (neg = false -> match u with b :: _ => beq b 45 = false | [] => True end)).
+  { unfold strip_minus in Sm. destruct t as [|b r]; [inversion Sm; subst; split; [reflexivity|auto]|].
+    destruct (beq b 45) eqn:B; inversion Sm; subst.
+    - assert (b = x2d) by (apply byte_eqb_eq; exact B). subst. split; [reflexivity|discriminate].
+    - split; [reflexivity|]. intros _. exact B. }
+  destruct Ht as [Ht Hnm].
+  destruct (classify_unsigned u) eqn:Cu.
+  - (* not a number: string *)
+    destruct (simple_string t) as [inner|] eqn:Ss; [|discriminate].
+    intro H; inversion H; subst l. clear H.
+    destruct (simple_string_spec _ _ Ss) as (Et & Hp & Hv).
+    rewrite Et. cbn [app]. unfold lex_core. change (beq x22 45) with false. change (beq x22 43) with false. cbn [orb].
+    unfold starts_number. change (is_digit x22) with false. change (beq x22 46) with false. cbn [orb andb].
+    change (beq x22 34) with true. cbv iota.
+    cbn [lex_strings]. change (beq x22 34) with true. cbv iota.
+    rewrite <- app_assoc. cbn [app].
+    rewrite (scan_str_plain (length inner) inner _ [] w Hv Hp) by (rewrite app_length; cbn [length]; lia).
+    cbn [rev app]. rewrite (WS_trim_nil _ Hw). reflexivity.
+  - (* integer *)
+    destruct (classify_int _ Cu) as (c & ds & Eu & Hc & Hds & Hz).
+    set (z := (if neg then - dec_value u else dec_value u)%Z).
+    destruct (int64_ok z) eqn:Ok; [|destruct (simple_string t) eqn:Ss; [|discriminate];
+      exfalso; destruct (simple_string_spec _ _ Ss) as (Et & _); rewrite Ht, Eu in Et;
+      destruct neg; cbn [app] in Et; inversion Et; subst; discriminate].
+    intro H; inversion H; subst l. clear H.
+    destruct (digit_facts _ Hc) as (D1 & D2 & D3 & D4 & D5 & D6).
+    destruct (digit_not_space _ Hc) as (N1 & N2 & N3 & N4 & N5).
+    pose proof (lex_number_int c ds w Hw Hc Hds Hz) as LN. cbv zeta in LN. rewrite <- Eu in LN.
+    unfold int64_ok in Ok. subst t. destruct neg; cbn [app].
+    + unfold lex_core. change (beq x2d 45) with true. cbn [orb]. cbv iota.
+      rewrite Eu at 1. cbn [app]. rewrite trim_left_nonspace by assumption.
+      change (c :: ds ++ w) with ((c :: ds) ++ w). rewrite <- Eu, LN.
+      subst z. destruct (dec_value u <? 2 ^ 63)%Z eqn:L1.
+      * rewrite (WS_only_space _ _ Hw). reflexivity.
+      * destruct (dec_value u =? 2 ^ 63)%Z eqn:L2; [|lia].
+        rewrite (WS_only_space _ _ Hw). f_equal. f_equal. lia.
+    + unfold lex_core. rewrite Eu at 1. cbn [app]. rewrite D1, D2. cbn [orb].
+      unfold starts_number. rewrite Hc. cbn [orb].
+      change (c :: ds ++ w) with ((c :: ds) ++ w). rewrite <- Eu, LN.
+      subst z. destruct (dec_value u <? 2 ^ 63)%Z eqn:L1; [|lia].
+      rewrite (WS_only_space _ _ Hw). reflexivity.
+  - (* real *)
+    destruct (classify_real _ Cu) as (ds & fs & tail & Eu & Hds & Hne & Hfs & Htl).
+    destruct ovf; [destruct (simple_string t) eqn:Ss; [|discriminate];
+      exfalso; destruct (simple_string_spec _ _ Ss) as (Et & _); rewrite Ht, Eu in Et;
+      destruct neg, ds; cbn [app] in Et; inversion Et; subst; discriminate|].
+    intro H; inversion H; subst l. clear H.
+    pose proof (lex_number_real ds fs tail w Hw Hds Hne Hfs Htl) as LN. rewrite <- Eu in LN.
+    assert (Hhead : exists h r, u = h :: r /\ (is_digit h = true \/ (h = x2e /\ exists d r', r = d :: r' /\ is_digit d = true))).
+    { destruct ds as [|d ds'].
+      - destruct fs as [|f0 fs0]; [congruence|]. exists x2e, ((f0 :: fs0) ++ tail). split; [exact Eu|].
+        right. split; [reflexivity|]. exists f0, (fs0 ++ tail). split; [reflexivity|].
+        cbn [forallb] in Hfs. apply andb_true_iff in Hfs. tauto.
+      - exists d, (ds' ++ x2e :: fs ++ tail). split; [exact Eu|]. left.
+        cbn [forallb] in Hds. apply andb_true_iff in Hds. tauto. }
+    destruct Hhead as (h & r & Eh & Hh).
+    assert (Hsp : trim_left (u ++ w) = u ++ w).
+    { rewrite Eh. cbn [app]. destruct Hh as [Hd|[-> _]].
+      - destruct (digit_not_space _ Hd) as (N1 & N2 & N3 & N4 & N5). apply trim_left_nonspace; assumption.
+      - apply trim_left_nonspace; reflexivity. }
+    subst t. destruct neg; cbn [app].
+    + unfold lex_core. change (beq x2d 45) with true. cbn [orb]. cbv iota.
+      rewrite Hsp, LN, (WS_only_space _ _ Hw). reflexivity.
+    + assert (Hst : starts_number (u ++ w) = true).
+      { rewrite Eh. cbn [app]. unfold starts_number. destruct Hh as [Hd|[-> (d & r' & -> & Hd)]].
+        - rewrite Hd. reflexivity.
+        - cbn [app]. rewrite Hd. reflexivity. }
+      assert (Hns : exists h' r'', u ++ w = h' :: r'' /\ beq h' 45 = false /\ beq h' 43 = false).
+      { rewrite Eh. cbn [app]. exists h, (r ++ w). split; [reflexivity|].
+        destruct Hh as [Hd|[-> _]]; [destruct (digit_facts _ Hd) as (D1 & D2 & _); auto|split; reflexivity]. }
+      destruct Hns as (h' & r'' & E' & M1 & M2).
+      unfold lex_core. rewrite E' at 1. rewrite M1, M2. cbn [orb]. rewrite <- E', Hst, LN, (WS_only_space _ _ Hw). reflexivity.
+Qed.
+
+Theorem shortcut_sound : forall (ovf : bool) (v : bytes) (l : lit),
+  try_literal ovf v = Some l -> lex_literal v = Some l.
+Proof.
+  intros ovf v l H. unfold try_literal, trim_space in H. unfold lex_literal.
+  destruct (trim_right_split (trim_left v)) as (w & E & Hw).
+  rewrite E. apply (try_core_sound ovf); assumption.
 Qed.
